@@ -306,23 +306,39 @@ func (w *World) findFunc(c *Contract) *ssa.Function {
 		if ptr {
 			rt = types.NewPointer(rt)
 		}
+		anon := ""
+		if j := strings.Index(meth, "$"); j >= 0 {
+			anon, meth = meth, meth[:j]
+		}
 		sel := w.prog.MethodSets.MethodSet(rt).Lookup(p.Types, meth)
 		if sel == nil {
 			return nil
 		}
-		return w.prog.MethodValue(sel)
+		mf := w.prog.MethodValue(sel)
+		if anon == "" || mf == nil {
+			return mf
+		}
+		return findAnon(mf, anon)
 	}
 	if i := strings.Index(key, "$"); i >= 0 {
 		outer := sp.Func(key[:i])
 		if outer == nil {
 			return nil
 		}
-		for _, af := range outer.AnonFuncs {
-			if af.Name() == key {
-				return af
-			}
-		}
-		return nil
+		return findAnon(outer, key)
 	}
 	return sp.Func(key)
+}
+
+// findAnon: the closure with this SSA name nested (at any depth) in fn.
+func findAnon(fn *ssa.Function, name string) *ssa.Function {
+	for _, af := range fn.AnonFuncs {
+		if af.Name() == name {
+			return af
+		}
+		if r := findAnon(af, name); r != nil {
+			return r
+		}
+	}
+	return nil
 }
